@@ -56,7 +56,10 @@ def gen(rng, tier):
             'close_time': rng.choice([0.0, 0.0, 0.3, 2.0]),
             # fault kind `slow`: the thread which handles control messages is
             # descheduled inside its handlers (up to a work loop period)
-            'slow_ctl': rng.choice([0.0, 0.0, 0.3])}
+            'slow_ctl': rng.choice([0.0, 0.0, 0.3]),
+            # fault: the final state update cannot be published any more (the
+            # state channel is already gone when the agent finalizes)
+            'pub_fail': rng.random() < 0.15}
 
 
 class _RM(object):
@@ -122,6 +125,16 @@ def run(seed, scenario, trace=None, tier='quick'):
                 a.initialize   = lambda: None
                 a.stage_output = lambda: None
                 a.register_timed_cb(a._check_lifetime, timer=10)
+                if sc.get('pub_fail'):
+                    real_publish = a.publish
+
+                    def publish(pubsub, msg, *args, **kw):
+                        if pubsub == rpc.STATE_PUBSUB and a._term.is_set():
+                            sim.fault('publish_fails')
+                            raise RuntimeError("no msg route for '%s'"
+                                               % pubsub)
+                        return real_publish(pubsub, msg, *args, **kw)
+                    a.publish = publish
                 a.start()
             st['agent']    = a
             st['t_start']  = a._starttime
@@ -235,7 +248,8 @@ def run(seed, scenario, trace=None, tier='quick'):
                 else:
                     clause = 'wrong_final_state'
                 sim.violation(PROP, clause, 'Agent_0.finalize', det)
-            elif pub != got or len(set(st['finals'])) > 1:
+            elif (pub != got and not sc.get('pub_fail')) or \
+                    len(set(st['finals'])) > 1:
                 sim.violation(PROP, 'published_differs', 'Agent_0.finalize',
                               det)
 
@@ -259,4 +273,6 @@ def shrink(sc):
         c = dict(sc); c['delay_max'] = 0.0; out.append(c)
     if sc.get('slow_ctl'):
         c = dict(sc); c['slow_ctl'] = 0.0; out.append(c)
+    if sc.get('pub_fail'):
+        c = dict(sc); c['pub_fail'] = False; out.append(c)
     return out
